@@ -57,6 +57,7 @@ fn apply(pdb: &mut PDB, op: &[&str], par: Option<&rayon::ThreadPool>) -> String 
         "p.remove_atoms_by" => { let pr = t.next().unwrap(); pdb.remove_atoms_by(p_a(pr)); unit }
         "p.remove_empty" => { match par { Some(p) => p.install(|| pdb.par_remove_empty()), None => pdb.remove_empty() }; unit }
         "p.join" => { pdb.join(SPdb::parse(&mut t).unwrap().to_real().unwrap()); unit }
+        "p.collect" => { let ms: Vec<Model> = pdb.models().cloned().collect(); let fresh: PDB = ms.into_iter().collect(); while pdb.model_count() > 0 { pdb.remove_model(0); } pdb.extend(fresh.models().cloned()); unit }
         "p.extend" => { let n = t.usize().unwrap(); let ms: Vec<Model> = (0..n).map(|_| SModel::parse(&mut t).unwrap().to_real().unwrap()).collect(); pdb.extend(ms); unit }
         "m.add_chain" => { let m = model!(); m.add_chain(SChain::parse(&mut t).unwrap().to_real().unwrap()); unit }
         "m.remove_chain" => { let m = model!(); let i = t.usize().unwrap(); m.remove_chain(i); unit }
@@ -191,6 +192,7 @@ fn rand_op(r: &mut Rng, s: &SPdb) -> String {
         9 | 10 => format!("p.remove_atoms_by {}", rand_pred(r, 'a')),
         11 | 12 => "p.remove_empty".into(),
         13 => format!("p.join {}", small(r, &tiny).line()),
+        14 if r.chance(1, 3) => "p.collect".into(),
         14 => { let x = small(r, &tiny); format!("p.extend {} {}", x.models.len(), x.models.iter().map(|m| tok(m, SModel::toks)).collect::<Vec<_>>().join(" ")) }
         15 => { let id = pk(r, CHAIN_IDS); format!("m.add_chain {} {}", ps(&p1), tok(&SChain::from_real(&gen_chain(r, &tiny, &mut cnt, id).to_real().unwrap()), SChain::toks)) }
         16 => format!("m.remove_chain {} {}", ps(&p1), r.below(4)),
